@@ -1,4 +1,8 @@
 import EaselModel.Buffer.Open
+import EaselModel.Buffer.Partition
+import EaselModel.Buffer.ReadFetch
+import EaselModel.Buffer.TokenOps
+import EaselModel.Buffer.KeepLines
 /-! # C05 — the input buffer behaves as a byte array with a cursor in every mode and history
 
 Property theorems only; the lemmas are in `EaselModel/Buffer/*`. `Buf` is the model of `ESL_BUFFER`
@@ -45,6 +49,56 @@ theorem getLine_refines (b : Buf) (h : WF b) (hl : Loaded b) :
     (getLine b).1.n = (getLine b).1.bytes.length ∧ PG (getLine b).2 :=
   EaselModel.Buffer.getLine_refines b h hl
 
+/-- `esl_buffer_FetchLine` / `FetchLineAsStr`: the same refinement (the copy is taken before the window may move);
+    the `AsStr` variant reports the NUL terminator. -/
+theorem fetchLine_refines (b : Buf) (asStr : Bool) (h : WF b) (hl : Loaded b) :
+    WF (fetchLine b asStr).2 ∧
+    ((fetchLine b asStr).1.st, (fetchLine b asStr).1.bytes, (fetchLine b asStr).2.abs) = specGetLine b.abs ∧
+    (fetchLine b asStr).1.n = (fetchLine b asStr).1.bytes.length ∧ PG (fetchLine b asStr).2 ∧
+    ((fetchLine b asStr).1.st = .ok → (fetchLine b asStr).1.z = asStr) :=
+  EaselModel.Buffer.fetchLine_refines b asStr h hl
+
+/-- `esl_buffer_Read` refines `specRead` for every byte count, page size and mode: `eslEOF` exactly when fewer than
+    `k` bytes remain (cursor unchanged), otherwise exactly the next `k` bytes. -/
+theorem read_refines (b : Buf) (k : Nat) (h : WF b) :
+    WF (read b k).2 ∧
+    ((read b k).1.st, (read b k).1.bytes, (read b k).2.abs) = specRead b.abs k ∧
+    (read b k).1.n = (read b k).1.bytes.length ∧ PG (read b k).2 :=
+  EaselModel.Buffer.read_refines b k h
+
+/-- `esl_buffer_GetToken` refines `specToken sep`: separators skipped, `eslEOF` at end of input, `eslEOL` on LF/CRLF
+    (also when the CR is the last loaded byte), else the token and the separators after it — every mode, every
+    page size ≥ 1, every separator set (NUL always counts as a separator, as `strchr` makes it). The returned
+    pointer is read after the last refill: the anchor set at the token start kept the token in the window. -/
+theorem getToken_refines (b : Buf) (sep : Bytes) (h : WF b) :
+    WF (getToken b sep).2 ∧
+    ((getToken b sep).1.st, (getToken b sep).1.bytes, (getToken b sep).2.abs) = specToken b.abs sep ∧
+    (getToken b sep).1.n = (getToken b sep).1.bytes.length ∧ PG (getToken b sep).2 :=
+  EaselModel.Buffer.getToken_refines b sep h
+
+/-- `esl_buffer_FetchToken` / `FetchTokenAsStr`: the same refinement. -/
+theorem fetchToken_refines (b : Buf) (sep : Bytes) (asStr : Bool) (h : WF b) :
+    WF (fetchToken b sep asStr).2 ∧
+    ((fetchToken b sep asStr).1.st, (fetchToken b sep asStr).1.bytes, (fetchToken b sep asStr).2.abs) = specToken b.abs sep ∧
+    (fetchToken b sep asStr).1.n = (fetchToken b sep asStr).1.bytes.length ∧ PG (fetchToken b sep asStr).2 ∧
+    ((fetchToken b sep asStr).1.st = .ok → (fetchToken b sep asStr).1.z = asStr) :=
+  EaselModel.Buffer.fetchToken_refines b sep asStr h
+
+/-- Lines and their terminators partition the input exactly; bodies are LF-free; terminators are LF, CRLF, or (only
+    for the last line) nothing; a body never ends in CR when the terminator is a bare LF: lines are the maximal runs
+    between LF/CRLF terminators. `specLines` iterates `specLine`, the function `GetLine` was proved to compute. -/
+theorem lines_partition (src : Bytes) :
+    (specLines src).flatMap (fun l => l.body ++ l.term) = src ∧
+    (∀ l ∈ specLines src, LF ∉ l.body ∧ (l.term = [LF] ∨ l.term = [CR, LF] ∨ l.term = [])) ∧
+    (∀ l ∈ specLines src, l.term = [LF] → l.body.getLast? ≠ some CR) ∧
+    (∀ i, i + 1 < (specLines src).length → ∀ l, (specLines src)[i]? = some l → l.term ≠ []) :=
+  EaselModel.Buffer.lines_partition src
+
+/-- The line and read operations leave the anchor (in input coordinates) and its count as they found them. -/
+theorem getLine_keeps_anchor (b : Buf) (h : WF b) (ha : AnchOK b) (hn : NoFpNoAnchor b) :
+    KeepA b (getLine b).2 ∧ AnchOK (getLine b).2 :=
+  getLine_keep b h ha hn
+
 /-- `buffer_countline` = `esl_memnewline` of the whole rest of the input, independent of how the input is paged. -/
 theorem countline_pagesize_independent (b : Buf) (h : WF b) (hlt : b.pos < b.n) :
     (countline b).1 = .ok ∧
@@ -73,6 +127,8 @@ example : WF (openBuf .stream 3 [97, 13, 10, 98]) ∧ Loaded (openBuf .stream 3 
   ⟨h.1, h.2.1.loaded h.1⟩
 example : (getLine (openBuf .stream 3 [97, 13, 10, 98])).1.bytes = [97] := by decide
 example : (openBuf .stream 2 [97, 98, 99, 100]).pos < (openBuf .stream 2 [97, 98, 99, 100]).n := by decide
+example : (getToken (openBuf .stream 3 [32, 32, 13, 10, 98, 10]) [32]).1.st = .eol := by decide
+example : (specLines [97, 13, 10, 98]).map (·.body) = [[97], [98]] := by decide
 example : ∃ b : Buf, b.anchor = some 0 ∧ b.n + b.pagesize ≤ b.balloc :=
   ⟨{ (openBuf .stream 2 [97]) with anchor := some 0, balloc := 8 }, by decide⟩
 
